@@ -187,7 +187,9 @@ def scaling_cases(draw, tier):
     k = draw(st.sampled_from([0.25, 0.5, 1, 2, 3, 4, 1.0, 2.0, 3.0, 8, 0.125]))
     ds = draw(gen.datasets(max_n=6, max_m=4))
     cand = draw(gen.candidates(oracle.universe(ds["rankings"])))
-    return {"scheme": scheme, "k": k, "dataset": ds, "cand": cand, "right": draw(st.booleans())}
+    return {"scheme": scheme, "k": k, "dataset": ds, "cand": cand, "right": draw(st.booleans()),
+            # the third way to write the multiplication: the augmented assignment `t = s; t *= k`
+            "augmented": draw(st.sampled_from([False, False, True]))}
 
 
 def check_scaling(case, ctx):
@@ -195,9 +197,15 @@ def check_scaling(case, ctx):
     s = lib.mk_scheme(scheme)
     before = [list(s.penalty_vectors[0]), list(s.penalty_vectors[1])]
     ids = (id(s.penalty_vectors), id(s.penalty_vectors[0]), id(s.penalty_vectors[1]))
-    t = lib.must(lambda: (k * s) if case["right"] else (s * k))
+    factory_before = lib.KemenyComputingFactory(s)       # built BEFORE the multiplication: must keep scoring under s
+
+    def augmented():
+        t_ = s
+        t_ *= k
+        return t_
+    t = lib.must(augmented if case.get("augmented") else (lambda: (k * s) if case["right"] else (s * k)))
     ctx.stats.case(case, k != 1 and not gen.is_complete(case["dataset"]["rankings"]),
-                   ["k:%s" % type(k).__name__, "rmul" if case["right"] else "mul"])
+                   ["k:%s" % type(k).__name__, "imul" if case.get("augmented") else "rmul" if case["right"] else "mul"])
     if not isinstance(t, ScoringScheme) or t is s:
         raise Violation("scheme * %r returned %r" % (k, t))
     want = [[x * float(k) for x in before[0]], [x * float(k) for x in before[1]]]
@@ -215,6 +223,9 @@ def check_scaling(case, ctx):
     b = lib.must(lib.KemenyComputingFactory(t).get_kemeny_score, c, d)
     if float(b) != float(a) * float(k):
         raise Violation("score under %r * s is %r, %r * score under s is %r" % (k, b, k, float(a) * float(k)))
+    a0 = lib.must(factory_before.get_kemeny_score, c, d)
+    if float(a0) != float(a):
+        raise Violation("a score factory built on s before the multiplication by %r now gives %r, not %r" % (k, a0, a))
 
 
 # ---- equivalence --------------------------------------------------------------------------------
